@@ -6,6 +6,7 @@
 //	part A  Go option space: schemas x 64 flag combinations x 4 output selections (complete product)
 //	part B  every language on the full schema set x 3 input formats
 //	part C  directly constructed IRs through Pipeline.Run (Transforms.CommonPasses hook, see gen.go)
+//	part D  several packages in one run (multipkg.go)
 //
 // Oracle (from the property statement): the run returned success =>
 // every generated Go package compiles (`go build`, no vet), every generated
@@ -587,7 +588,7 @@ func main() {
 	// debugging aids (never set by verif.sh): C02_PARTS selects parts, C02_LIMIT caps the schema count
 	parts := os.Getenv("C02_PARTS")
 	if parts == "" {
-		parts = "ABC"
+		parts = "ABCD"
 	}
 	limit := 0
 	fmt.Sscan(os.Getenv("C02_LIMIT"), &limit)
@@ -681,8 +682,41 @@ func main() {
 	}
 	tC := time.Since(start) - tA - tB
 
+	// ---- part D: several packages in one run (see multipkg.go)
+	mpAll, mpCore := multiPackageInputs(r.Thorough())
+	var inputsD, inputsDcore []*Input
+	cueD := 0
+	for _, m := range mpAll {
+		inputsD = append(inputsD, m.irInput())
+		if in, ok := m.cueInput(); ok {
+			inputsD = append(inputsD, in)
+			cueD++
+		}
+	}
+	for _, m := range mpCore {
+		inputsDcore = append(inputsDcore, m.irInput())
+		if in, ok := m.cueInput(); ok && r.Thorough() {
+			inputsDcore = append(inputsDcore, in)
+		}
+	}
+	if limit > 0 && limit < len(inputsD) {
+		inputsD = inputsD[:limit]
+	}
+	if !strings.Contains(parts, "D") {
+		inputsD, inputsDcore = nil, nil
+	}
+	doneD := 0
+	if ck.over() {
+		ck.truncated = append(ck.truncated, "part D not started")
+	} else {
+		ck.run("D", inputsD, cfgsC)
+		ck.run("D", inputsDcore, allGoCfgs())
+		doneD = len(inputsD)
+	}
+	tD := time.Since(start) - tA - tB - tC
+
 	rounds, stable := ck.minimise(24)
-	tMin := time.Since(start) - tA - tB - tC
+	tMin := time.Since(start) - tA - tB - tC - tD
 
 	fs := ck.failures()
 	for _, f := range fs.list {
